@@ -22,17 +22,21 @@ enum {
     K_LINEDEL, K_LINEDUP, K_LINESWAP,
     K_HDRSWAP,		/* swap header lines i < j (pos = pair index) */
     K_YSUB,		/* YAML: value (with nested block) -> each ysub[] */
+    K_REDECL,		/* re-declare a numeric header line later on */
+    K_HDRMOVE,		/* move header line i to before header line j */
     NKINDS
 };
 static const char *const kind_names[NKINDS] = {
     "truncate", "token-delete", "token-duplicate", "token-swap-next",
     "number-replace", "keyword-replace", "line-delete", "line-duplicate",
-    "line-swap-next", "header-line-swap", "yaml-node-substitute"
+    "line-swap-next", "header-line-swap", "yaml-node-substitute",
+    "header-redeclare", "header-line-move"
 };
 
 #define MAXTOK	1600
 #define MAXLINE	400
 #define MAXTEXT	20000
+#define MAXHDR	24		/* header lines considered by K_REDECL/K_HDRMOVE */
 
 typedef struct doc {
     int format;
@@ -46,6 +50,15 @@ typedef struct doc {
     int nline;
     int ls[MAXLINE], le[MAXLINE];	/* line [start,end) incl. newline */
     int nhdr;				/* header lines */
+    int nhdrf;				/* header lines, capped at MAXHDR */
+    /* re-declarable header lines: keyword-or-word + first number */
+    int nrd;				/* (line, insert-after) pairs */
+    int rdline[MAXHDR * MAXHDR], rdafter[MAXHDR * MAXHDR];
+    int rd_ws[MAXHDR], rd_we[MAXHDR];	/* first token of header line */
+    int rd_kw[MAXHDR];			/* its keyword index or -1 */
+    int rd_ns[MAXHDR], rd_ne[MAXHDR];	/* first number core, or -1 */
+    int tokkw[MAXTOK];			/* token -> keyword index or -1 */
+    int toknum[MAXTOK];			/* token -> index in numtok or -1 */
     /* YAML view of a line */
     int nyl, yline[MAXLINE];		/* lines having a value position */
     int yvs[MAXLINE];			/* value start offset (absolute) */
@@ -118,6 +131,8 @@ static void doc_parse(doc_t *d, int format, const char *s, int len)
 	}
 	d->ts[d->ntok] = a;
 	d->te[d->ntok] = i;
+	d->tokkw[d->ntok] = -1;
+	d->toknum[d->ntok] = -1;
 	/* numeric? */
 	int ca = a, cb = i;
 	while (ca < cb && s[ca] == '[')
@@ -125,6 +140,7 @@ static void doc_parse(doc_t *d, int format, const char *s, int len)
 	while (cb > ca && strchr("],j:", s[cb - 1]) != NULL)
 	    --cb;
 	if (is_numeric_core(s, ca, cb)) {
+	    d->toknum[d->ntok] = d->nnum;
 	    d->numtok[d->nnum] = d->ntok;
 	    d->ncs[d->nnum] = ca;
 	    d->nce[d->nnum] = cb;
@@ -134,6 +150,7 @@ static void doc_parse(doc_t *d, int format, const char *s, int len)
 		int n = (int)strlen(kw[k].text);
 		if (n == i - a && strncasecmp(kw[k].text, s + a,
 			    (size_t)n) == 0) {
+		    d->tokkw[d->ntok] = k;
 		    d->kwtok[d->nkw] = d->ntok;
 		    d->kwidx[d->nkw] = k;
 		    ++d->nkw;
@@ -177,8 +194,45 @@ static void doc_parse(doc_t *d, int format, const char *s, int len)
 	    break;
 	}
     }
+    d->nhdrf = d->nhdr > MAXHDR ? MAXHDR : d->nhdr;
     if (d->nhdr > 16)
 	d->nhdr = 16;
+    /* re-declarable header lines */
+    d->nrd = 0;
+    {
+	int t = 0;
+	for (int l = 0; l < d->nhdrf; ++l) {
+	    d->rd_ns[l] = d->rd_ne[l] = -1;
+	    d->rd_ws[l] = d->rd_we[l] = -1;
+	    d->rd_kw[l] = -1;
+	    while (t < d->ntok && d->ts[t] < d->ls[l])
+		++t;
+	    if (t >= d->ntok || d->ts[t] >= d->le[l])
+		continue;
+	    int first = t;
+	    /* YAML list prefix "- key:" : the key is the word */
+	    if (d->te[first] - d->ts[first] == 1 && s[d->ts[first]] == '-' &&
+		    first + 1 < d->ntok && d->ts[first + 1] < d->le[l])
+		++first;
+	    d->rd_ws[l] = d->ts[first];
+	    d->rd_we[l] = d->te[first];
+	    d->rd_kw[l] = d->tokkw[first];
+	    for (int u = first + 1; u < d->ntok && d->ts[u] < d->le[l]; ++u) {
+		if (d->toknum[u] >= 0) {
+		    d->rd_ns[l] = d->ncs[d->toknum[u]];
+		    d->rd_ne[l] = d->nce[d->toknum[u]];
+		    break;
+		}
+	    }
+	    if (d->rd_ns[l] < 0)
+		continue;
+	    for (int p = l; p < d->nhdrf; ++p) {
+		d->rdline[d->nrd] = l;
+		d->rdafter[d->nrd] = p;
+		++d->nrd;
+	    }
+	}
+    }
     /* YAML view */
     if (format == F_VNACAL || format == F_YAML) {
 	for (int l = 0; l < d->nline; ++l) {
@@ -251,6 +305,8 @@ static long dev_count(const doc_t *d, int kind)
     case K_LINESWAP:	return d->nline > 0 ? d->nline - 1 : 0;
     case K_HDRSWAP:	return (long)d->nhdr * (d->nhdr - 1) / 2;
     case K_YSUB:	return d->nyl;
+    case K_REDECL:	return d->nrd;
+    case K_HDRMOVE:	return (long)d->nhdrf * (d->nhdrf + 1);
     default:		return 0;
     }
 }
@@ -395,6 +451,87 @@ static void dev_apply(const doc_t *d, int kind, long pos, emit_fn emit,
 		ob_put(o, s, rest, len);
 		emit(ctx, o->b, o->n, v);
 	    }
+	}
+	break;
+
+    case K_REDECL:
+	{
+	    const kw_t *kw = kw_tables[d->format];
+	    int l = d->rdline[pos], after = d->rdafter[pos];
+	    int me = d->rd_kw[l];
+	    char core[64], val[3][48];
+	    int n = d->rd_ne[l] - d->rd_ns[l], vi = 0;
+	    double v;
+
+	    if (n <= 0 || n >= (int)sizeof(core))
+		break;
+	    memcpy(core, s + d->rd_ns[l], (size_t)n);
+	    core[n] = '\0';
+	    v = strtod(core, NULL);
+	    {
+		double w[3] = { v + 1.0, v - 1.0, 2.0 * v };
+		for (int i = 0; i < 3; ++i) {
+		    if (w[i] > -1e9 && w[i] < 1e9 && w[i] == (double)(long)w[i])
+			snprintf(val[i], sizeof(val[i]), "%ld", (long)w[i]);
+		    else
+			snprintf(val[i], sizeof(val[i]), "%g", w[i]);
+		}
+	    }
+	    /* keyword variants: itself, then (not for vnacal, where the
+	       count would explode) every other keyword of its class */
+	    for (int k = -1; k == -1 || kw[k].text != NULL; ++k) {
+		if (k >= 0 && (me < 0 || d->format == F_VNACAL || k == me ||
+			    kw[k].cls != kw[me].cls))
+		    continue;
+		for (int i = 0; i < 3; ++i, ++vi) {
+		    o->n = 0;
+		    ob_put(o, s, 0, d->le[after]);
+		    if (d->le[after] > 0 && s[d->le[after] - 1] != '\n')
+			ob_str(o, "\n");
+		    ob_put(o, s, d->ls[l], d->rd_ws[l]);
+		    if (k < 0)
+			ob_put(o, s, d->rd_ws[l], d->rd_we[l]);
+		    else
+			ob_str(o, kw[k].text);
+		    ob_put(o, s, d->rd_we[l], d->rd_ns[l]);
+		    ob_str(o, val[i]);
+		    ob_put(o, s, d->rd_ne[l], d->le[l]);
+		    if (d->le[l] > 0 && s[d->le[l] - 1] != '\n')
+			ob_str(o, "\n");
+		    ob_put(o, s, d->le[after], len);
+		    emit(ctx, o->b, o->n, (k + 1) * 3 + i);
+		}
+	    }
+	}
+	break;
+
+    case K_HDRMOVE:
+	{
+	    int i = (int)(pos / (d->nhdrf + 1));
+	    int j = (int)(pos % (d->nhdrf + 1));
+	    int at;
+
+	    if (j == i || j == i + 1)
+		break;			/* stays where it is */
+	    at = j < d->nhdrf ? d->ls[j] : d->le[d->nhdrf - 1];
+	    if (j < i) {
+		ob_put(o, s, 0, at);
+		ob_put(o, s, d->ls[i], d->le[i]);
+		if (d->le[i] > 0 && s[d->le[i] - 1] != '\n')
+		    ob_str(o, "\n");
+		ob_put(o, s, at, d->ls[i]);
+		ob_put(o, s, d->le[i], len);
+	    } else {
+		ob_put(o, s, 0, d->ls[i]);
+		ob_put(o, s, d->le[i], at);
+		if (at > 0 && s[at - 1] != '\n')
+		    ob_str(o, "\n");
+		ob_put(o, s, d->ls[i], d->le[i]);
+		if (d->le[i] > 0 && s[d->le[i] - 1] != '\n' && at < len)
+		    ob_str(o, "\n");
+		ob_put(o, s, at, len);
+	    }
+	    emit(ctx, o->b, o->n, 0);
 	}
 	break;
 
